@@ -203,7 +203,7 @@ def explore_consume_order(lang, agg):
 
     out = []
     for idx, (role, expr) in enumerate(c15.capture()[lang]):
-        dfa = nfa_to_dfa(expression_to_nfa(expr))
+        dfa = c15.build_dfa(expr)
         order, preds = c15.dfa_index(dfa)
         classes = c15.token_classes(expr)
         p0, _, _ = c15.run_history(dfa, [])
